@@ -198,6 +198,9 @@ func scrub(o verifsim.Obj) any {
 		for _, f := range []string{"resourceVersion", "uid", "creationTimestamp", "managedFields"} {
 			delete(m, f)
 		}
+		if _, ok := m["deletionTimestamp"]; ok {
+			m["deletionTimestamp"] = "<set>" // the simulated clock advances with every write, the interloper's too
+		}
 	}
 	var walk func(v any)
 	walk = func(v any) {
